@@ -193,8 +193,8 @@ def state_diff(x, y):
 #      aimed at whoever acts next, and of the next block's own transactions)          -> C01
 #   Br the same blocks with process restarts (always right after a block in which a staking transaction failed) -> C03
 STREAM_PLAN = {
-    "quick": [("super", 3, 70), ("poor", 1, 40), ("pay", 1, 40)],
-    "thorough": [("super", 14, 110), ("pay", 3, 80), ("life", 3, 80), ("poor", 3, 80), ("sidauth", 3, 80), ("fault", 2, 80), ("did", 2, 80)],
+    "quick": [("super", 2, 70), ("superstore", 2, 70), ("poor", 1, 40), ("pay", 1, 40)],
+    "thorough": [("super", 10, 110), ("superstore", 8, 110), ("pay", 3, 80), ("life", 3, 80), ("poor", 3, 80), ("sidauth", 3, 80), ("fault", 2, 80), ("did", 2, 80)],
 }
 STAKING_KINDS = ("Delegate", "Undelegate", "Redelegate", "Reset", "AddVstorage", "RemoveVstorage", "Create")
 
@@ -282,7 +282,7 @@ def stream_scripts(blocks, rnd):
                 # in a block of its own, followed by a restart on the restarting replica
                 if cur:
                     close()
-                cur = [dict(tx, data="D12", commit="D12", cseg=["D12"], alias="alD12", size=5000000000)]
+                cur = [dict(tx, data="D12", commit="D12", cseg=["D12"], alias="alD12", dur=20000000000000)]
                 close(failed=True)
             cur.append(tx)
             if tx["kind"] == "Delegate" and not failed and tx.get("val") in ("v1", "v2"):
